@@ -118,8 +118,16 @@ def typed(rep, rule, site, what, expr, want_expr, want_unit, leaves, depends=())
         rep.ok(rule, site, what, f"{ir.show(expr)[:100]} : {want_unit}")
         return True
     for root, why in depends:
-        if not any(x == ('name', root) for x in ir.walk(expr)):
-            rep.bad(rule, site, what, f"{ir.show(expr)[:100]} does not depend on `{root}` at all: {why}")
+        if callable(root):
+            if any(root(x) for x in ir.walk(expr)):
+                continue
+            rep.bad(rule, site, what, f"{ir.show(expr)[:100]}: {why}")
+            return False
+        alts = root if isinstance(root, list) else [root]
+        alts = [('name', a) if isinstance(a, str) else a for a in alts]
+        leaf = alts[0]
+        if not any(x in alts for x in ir.walk(expr)):
+            rep.bad(rule, site, what, f"{ir.show(expr)[:100]} does not depend on `{ir.show(leaf)[:60]}` at all: {why}")
             return False
     u = unit_of(expr, leaves)
     if u is not None and str(u).startswith("err"):
@@ -316,7 +324,12 @@ def decode_address(rep, idx):
         R = c.parse("self._windows[id(A)][2]", env)
         want = c.norm(ir.parse("(address - R.start) * R.step", {"R": R}))
         leaves = {"address": 'amP', ir.show(('attr', R, 'start')): 'amP', ir.show(('attr', R, 'stop')): 'amP', ir.show(('attr', R, 'step')): 'r'}
-        typed(rep, "C03.2", site, "address handed to the window's map = (address - window base) * ratio, with the window's stored range", arg, want, 'aw', leaves)
+        typed(rep, "C03.2", site, "address handed to the window's map = (address - window base) * ratio, with the window's stored range", arg, want, 'aw', leaves,
+              depends=[("address", "different addresses inside the window decode to different addresses of its map"),
+                       (lambda x: x[0] == 'attr' and x[2] == 'start' or x[0] == 'sub' and x[2] == ('const', 0) and x[1][0] != 'tuple',
+                        "no range start occurs in it; the offset inside a window is counted from where the window was placed; a mask of the address "
+                        "equals that only when the start is a multiple of the mask size, which add_window() does not enforce for dense windows "
+                        "(they are aligned to their span 2**addr_width / ratio)")])
     fi = c.fi
     none_ret = any(isinstance(n, ast.If) and ir.norm(ir.from_ast(n.test, {})) == ir.norm(ir.parse("assignment is None")) and
                    any(isinstance(s, ast.Return) and (s.value is None or (isinstance(s.value, ast.Constant) and s.value.value is None)) for s in n.body)
